@@ -6,6 +6,9 @@ package docfilter
 
 //@ func (*RelevantElements).Process(doc)
 //@   requires doc != nil
+//@   requires [C08] #after-classification phase(doc) == 1
+//@   ghostset phase(doc) = 2
+//@   ensures [C08] phase(doc) == 2
 //@   requires forall(i, 0 <= i && i < len(doc.Elements), isobj(doc.Elements[i]))
 //@   requires forall(i, j, 0 <= i && i < j && j < len(doc.Elements), doc.Elements[i] != doc.Elements[j])
 //@   requires [C08] forall(i, 0 <= i && i < len(doc.Elements), typeis(doc.Elements[i], *webdoc.Text) || !doc.Elements[i].IsContent())
@@ -17,3 +20,19 @@ package docfilter
 //@   loop 0 invariant forall(j, 0 <= j && j < ITER, doc.Elements[j].IsContent() == (old(doc.Elements[j].IsContent()) ||
 //@                 (!typeis(doc.Elements[j], *webdoc.Text) && inRun(doc.Elements, j))))
 //@   loop 0 invariant forall(j, ITER <= j && j < len(doc.Elements), doc.Elements[j].IsContent() == old(doc.Elements[j].IsContent()))
+
+//@ func (*LeadImageFinder).Process(doc)
+//@   requires doc != nil
+//@   requires [C08] #after-relevant-elements phase(doc) == 2
+//@   ghostset phase(doc) = 3
+//@   ensures [C08] phase(doc) == 3
+
+//@ func (*NestedElementRetainer).Process(doc)
+//@   requires doc != nil
+//@   requires [C01] forall(i, 0 <= i && i < len(doc.Elements), isobj(doc.Elements[i]))
+//@   requires [C01,C07] #balanced-placeholders balancedTags(doc)
+//@   loop 0 invariant len(stack) == tagDepthAt(doc, ITER) && forall(k, 0 <= k && k < len(stack), stack[k] != nil) && disjoint(stack, doc.Elements)
+//@   loop 0 invariant balancedTags(doc) && forall(i, 0 <= i && i < len(doc.Elements), isobj(doc.Elements[i]))
+//@   requires [C08] #after-lead-image phase(doc) == 3
+//@   ghostset phase(doc) = 4
+//@   ensures [C08] phase(doc) == 4
